@@ -51,6 +51,8 @@ class Run:
         self.flows = sorted({w[1] for w in spec["wl"]})
         self.samples = []       # (step, now, id(packet_in_service) or None)
         self.pkts = lab.inject(self.entry, spec["wl"])
+        self.late = {id(p): w[4] for p, w in zip(self.pkts, spec["wl"])}
+        self._start_step = None
         lab.after_step.append(self._after_step)
         self.counter_checks = 0
         self.monitor = None
@@ -147,7 +149,23 @@ class Run:
         """packets that had certainly arrived when the scheduler chose `item` (arrival observed before the previous exit)
         and had not been transmitted yet"""
         if item["idle_before"]:
-            return []
+            # After an idle period the scheduler can only react through an event created at (or after) the first arrival's
+            # step; arrivals that were already on the agenda for this instant (early injection) are processed before any
+            # such event, so they had certainly arrived when transmission of `item` began (DESIGN 3.5, C01 trigger order).
+            if self._start_step is None:
+                self._start_step = {}
+                for step, now, p in self.samples:
+                    if p is not None and id(p) not in self._start_step:
+                        self._start_step[id(p)] = step
+            c = self._start_step.get(id(item["in"].pkt))
+            if c is None:
+                return []
+            t0 = item["in"].now
+            first = min((r for r in self.entry.recs if r.now == t0), key=lambda r: r.seq)
+            if c <= first.step:
+                return []       # transmission began within the first arrival's own step: decided synchronously
+            return [r for r in self.entry.recs if r.now == t0 and r.step < c and self.late.get(id(r.pkt), 1) == 0
+                    and r.pkt is not item["in"].pkt and F(r.now) == item["s"]]
         cut = item["prev_out_seq"]
         gone = {id(o.pkt) for o in self.out.recs[:item["k"]]}
         return [r for r in self.entry.recs if r.seq < cut and id(r.pkt) not in gone and r.pkt is not item["in"].pkt]
